@@ -146,6 +146,17 @@ ct!(rc5::RC5<u128, U12, U255>, "RC5_128_12_255", "RC5", both);
 ct!(rc5::RC5<u64, U20, U9>, "RC5_64_20_9", "RC5", both);
 ct!(rc5::RC5<u8, U0, U0>, "RC5_8_0_0", "RC5", both);
 ct!(rc5::RC5<u16, U16, U3>, "RC5_16_16_3", "RC5", both);
+// parameter values by their shape: three-digit numbers with interior / trailing zeros, neighbours of 128, odd and even round counts
+ct!(rc5::RC5<u32, U100, U16>, "RC5_32_100_16", "RC5", both);
+ct!(rc5::RC5<u32, U12, U104>, "RC5_32_12_104", "RC5", both);
+ct!(rc5::RC5<u64, U205, U32>, "RC5_64_205_32", "RC5", both);
+ct!(rc5::RC5<u16, U110, U200>, "RC5_16_110_200", "RC5", both);
+ct!(rc5::RC5<u8, U127, U10>, "RC5_8_127_10", "RC5", both);
+ct!(rc5::RC5<u32, U128, U16>, "RC5_32_128_16", "RC5", both);
+ct!(rc5::RC5<u64, U126, U99>, "RC5_64_126_99", "RC5", both);
+ct!(rc5::RC5<u16, U129, U101>, "RC5_16_129_101", "RC5", both);
+ct!(rc5::RC5<u128, U209, U109>, "RC5_128_209_109", "RC5", both);
+ct!(rc5::RC5<u32, U254, U8>, "RC5_32_254_8", "RC5", both);
 
 macro_rules! table {
     ($($t:ty),* $(,)?) => {
@@ -181,6 +192,7 @@ table!(
     rc5::RC5<u32, U12, U1>, rc5::RC5<u32, U12, U255>, rc5::RC5<u32, U12, U7>,
     rc5::RC5<u64, U12, U13>, rc5::RC5<u128, U4, U5>, rc5::RC5<u8, U1, U3>, rc5::RC5<u16, U2, U1>,
     rc5::RC5<u8, U255, U255>, rc5::RC5<u128, U255, U16>, rc5::RC5<u64, U0, U8>, rc5::RC5<u16, U1, U0>, rc5::RC5<u128, U12, U255>, rc5::RC5<u64, U20, U9>, rc5::RC5<u8, U0, U0>, rc5::RC5<u16, U16, U3>,
+    rc5::RC5<u32, U100, U16>, rc5::RC5<u32, U12, U104>, rc5::RC5<u64, U205, U32>, rc5::RC5<u16, U110, U200>, rc5::RC5<u8, U127, U10>, rc5::RC5<u32, U128, U16>, rc5::RC5<u64, U126, U99>, rc5::RC5<u16, U129, U101>, rc5::RC5<u128, U209, U109>, rc5::RC5<u32, U254, U8>,
 );
 
 /// The eight 4-bit tables of a Gost89 type, flattened (8 x 16), for the trace (`x` field).
